@@ -19,7 +19,7 @@ testutil() {
 git apply "$SD/patch.diff" || { echo "VERDICT patch-does-not-apply" | tee -a "$LOG"; exit 1; }
 echo "### suite with change" >> "$LOG"
 cargo test --workspace --no-fail-fast --offline >> "$LOG" 2>&1; SUITE=$?
-FAILED=$(grep -E "^test .* FAILED" "$LOG" | grep -v test_historical_clock_time_delta_calculation | wc -l)
+FAILED=$(grep -E "^test .* \.\.\. FAILED" "$LOG" | grep -v test_historical_clock_time_delta_calculation | wc -l)
 mkdir -p $CRATE/tests; cp "$SD/$DEMO" $CRATE/tests/; testutil
 echo "### demo with change" >> "$LOG"
 cargo test -p $CRATE --offline --test $NAME >> "$LOG" 2>&1; WITH=$?
